@@ -87,6 +87,7 @@ pub fn all() -> Vec<Box<dyn Check>> {
     v.push(Box::new(Reuse { property: "C08", family: "c08_monitor_on_networks", inner: Box::new(c01_noisy()), quick_runs: 3200, thorough_runs: 90000 }));
     v.push(Box::new(Reuse { property: "C08", family: "c08_monitor_on_faithful_history", inner: Box::new(c12::C12), quick_runs: 8000, thorough_runs: 120000 }));
     v.push(Box::new(Reuse { property: "C12", family: "c12_timer_cover_on_networks", inner: Box::new(C12Net(c01_exact())), quick_runs: 4000, thorough_runs: 90000 }));
+    v.push(Box::new(Reuse { property: "C12", family: "c12_timer_cover_on_boundary_clock_tlvs", inner: Box::new(TimerCover(Box::new(c15::C15))), quick_runs: 8000, thorough_runs: 150000 }));
     // C17 part 1: the nesting-detecting lock runs in every scenario; these families report it
     v.push(Box::new(Reuse { property: "C17", family: "c17_lock_depth_on_random_history", inner: Box::new(c08::C08Driver), quick_runs: 16000, thorough_runs: 300000 }));
     v.push(Box::new(Reuse { property: "C17", family: "c17_lock_depth_on_networks", inner: Box::new(c01_noisy()), quick_runs: 2400, thorough_runs: 60000 }));
@@ -94,6 +95,26 @@ pub fn all() -> Vec<Box<dyn Check>> {
     v.push(Box::new(Reuse { property: "C17", family: "c17_lock_depth_on_chaos_host", inner: Box::new(c03::C03), quick_runs: 12000, thorough_runs: 180000 }));
     let _ = c02_free;
     v
+}
+
+/// any faithful-host scenario with the timer-cover monitor switched on
+pub struct TimerCover(pub Box<dyn Check>);
+impl Check for TimerCover {
+    fn property(&self) -> &'static str {
+        "C12"
+    }
+    fn family(&self) -> &'static str {
+        "c12_timer_cover_inner"
+    }
+    fn budget(&self, tier: Tier) -> u64 {
+        self.0.budget(tier)
+    }
+    fn run(&self, ch: &mut Chooser, tier: Tier) -> RunOutcome {
+        crate::host::TIMER_COVER_DEFAULT.with(|c| c.set(true));
+        let o = self.0.run(ch, tier);
+        crate::host::TIMER_COVER_DEFAULT.with(|c| c.set(false));
+        o
+    }
 }
 
 /// C01 networks with the timer-cover monitor switched on (faithful host throughout)
@@ -137,17 +158,17 @@ pub fn extras(property: &str) -> EvidenceExtras {
     ];
     match property {
         "C01" => {
-            e.rule = "each run = one generated network (2-6/8 nodes, ordinary + boundary clocks, shared segments, optional rings and two-ports-on-one-segment, slave-only and clockClass<128 nodes) simulated through convergence, a hold window, one fault script (cut/heal, silence/unsilence, restart, quality change) and a second hold window; non-trivial = converged window evaluated and fault script applied (or no applicable fault); distinct = distinct event-shape fingerprint (hash of the sequence of event kinds, state transitions and oracle phases)".into();
+            e.rule = "each run = one generated network (2-6/8 nodes, ordinary + boundary clocks, shared segments, optional rings and two-ports-on-one-segment, slave-only and clockClass<128 nodes, point-to-point links optionally using the peer delay mechanism, in a quarter of the networks announce intervals that differ per segment by up to 2^2) simulated through convergence, a hold window, one fault script (cut/heal, silence/unsilence, restart, quality change) and a second hold window; non-trivial = converged window evaluated and fault script applied (or no applicable fault); distinct = distinct event-shape fingerprint (hash of the sequence of event kinds, state transitions and oracle phases)".into();
         }
         "C02" => {
-            e.rule = "each run = one closed loop (statime master or scripted one-step master <-> statime slave with the real Kalman servo acting on a simulated oscillator) at one point of the parameter box (offset +-10 s, drift +-150 ppm, delay 1-400 us, jitter 0-20 us, sync/delay interval 2^-3..2^1 s, timestamp quantum 0/1/8 ns); non-trivial = the port became slave and the bound was evaluated after the settle time; distinct = distinct (parameter class, state-transition sequence) fingerprint".into();
+            e.rule = "each run = one closed loop (statime master or scripted one-step master <-> statime slave with the real Kalman servo acting on a simulated oscillator) at one point of the parameter box (offset +-10 s, drift +-150 ppm, delay 1-400 us, jitter 0-20 us, sync/delay interval 2^-3..2^1 s, timestamp quantum 0/1/8 ns, transmit-timestamp latency 0 / 0.1 / 1.5 / 10 ms so that a Delay_Req timestamp may arrive after its Delay_Resp; one family over the peer delay mechanism); non-trivial = the port became slave and the bound was evaluated after the settle time; distinct = distinct (parameter class, state-transition sequence) fingerprint".into();
             e.assumptions.push("bound B = max(1 us, 1.5 J + 2 q); settle time 60 s + 150 I + 250 I^2/s calibrated on the unchanged tree with a margin >= 2x and frozen".into());
         }
         "C03" => {
             e.rule = "each run = one instance with 1-3 ports in a random configuration (E2E/P2P, path trace, slave-only, master-only, acceptable-master lists, Kalman or basic filter, real TlvForwarder) driven through 20-80 (thorough: -400) host calls: the random-history driver (valid traffic that walks the ports through every state, timers in any order, BMCA, run-time setting changes, late/lost TX timestamps) interleaved with hostile operations (frames with mutated header fields, boundary timestamps and correction fields, TLVs sized at every buffer margin, path traces of 0..246 entries, truncated / padded / length-rewritten / raw frames up to 2048 bytes, arbitrary receive and transmit timestamps in [0, 2^63 ns), failing clocks); every operation runs under catch_unwind; the whole batch is run twice, in the release profile and in the `checked` profile (debug-assertions + overflow-checks); non-trivial = at least one port state transition or a panic; distinct = operation-kind sequence".into();
         }
         "C05" => {
-            e.rule = "each run = one instance (1-3 ports, own attributes from small domains, slave-only / master-only flags, prior port states Listening / Master by timeout / Slave-Passive by an earlier BMCA round / Faulty by a two-responder Pdelay exchange) and up to three scripted masters (grandmaster attributes and stepsRemoved 0,1,2,3,254 from small domains, sender identity below / above / between / same clock other port, on tape-chosen ports) each delivering two Announces in a tape-chosen interleaving, then PtpInstance::bmca; the resulting port states and data sets are compared with the reference implementation of Figures 33-35 and with the outcome of a second interleaving; non-trivial = every run; distinct = (decision vector, prior states, flags) fingerprint".into();
+            e.rule = "each run = one instance (1-3 ports, own attributes from small domains, slave-only / master-only flags, prior port states Listening / Master by timeout / Slave-Passive by an earlier BMCA round / Faulty by a two-responder Pdelay exchange) and up to three scripted masters (grandmaster attributes and stepsRemoved 0,1,2,3,254 from small domains, sender identity below / above / between / same clock other port, on tape-chosen ports) each delivering two Announces in a tape-chosen interleaving, optionally a warm-up BMCA run and a run-time change of the own clock quality (set_clock_quality) before them, then PtpInstance::bmca; the resulting port states and data sets are compared with the reference implementation of Figures 33-35 and with the outcome of a second interleaving; non-trivial = every run; distinct = (decision vector, prior states, flags) fingerprint".into();
         }
         "C06" => {
             e.rule = "each run = one ordinary clock (normal, clockClass<128 or slave-only) and 1-3 (one run in 12: nine) scripted masters whose Announce arrivals over 16 intervals are drawn per interval from {present, absent, duplicated with the same sequenceId, stale sequenceId, two delivered out of order}, sequence ids straddling 65535->0, stepsRemoved 254/255/300, one master bearing the instance's own clock identity; BMCA phase from the tape; after every BMCA run the observed parent is checked against an arrival-time model (necessary, sufficient, expiry); non-trivial = the port was slave at some BMCA run; distinct = arrival-pattern fingerprint".into();
@@ -168,7 +189,7 @@ pub fn extras(property: &str) -> EvidenceExtras {
             e.rule = "each run = a P2P port (started Listening, Master or Slave) with a recording filter, one to three consecutive Pdelay requests answered by one or two scripted responders (one-step / two-step) whose events (TX timestamp, Pdelay_Resp, Pdelay_Resp_Follow_Up, duplicates, omissions, responses for another requester, announce receipt timer, BMCA) are interleaved by the tape; exact integer formula check per measurement, Faulty entry/exit rules; plus the Faulty-role monitors on random histories; non-trivial = a measurement was produced or a second responder appeared; distinct = event-kind sequence fingerprint".into();
         }
         "C11" => {
-            e.rule = "each run = a 2-3 port boundary clock between a scripted parent (Announce contents redrawn at tape-chosen times: flags, utcOffset, timeSource, quality, priorities, stepsRemoved 0..254, grandmaster identity), a competing master, parent silences and run-time set_clock_quality; every emitted Announce is compared field by field with the data-set getters, with the parent's last Announce (+1 step) and with the instance's own attributes; non-trivial = Announces were emitted while a port was slave; distinct = change-script fingerprint plus transition sequence".into();
+            e.rule = "each run = a 2-3 port boundary clock between a scripted parent (Announce contents redrawn at tape-chosen times: flags, utcOffset, timeSource, quality, priorities, stepsRemoved 0..254, grandmaster identity), a competing master (both announcing at the instance's rate, up to 8x faster or 2x slower; ports of the instance with differing announce intervals), parent silences and run-time set_clock_quality; every emitted Announce is compared field by field with the data-set getters, with the parent's last Announce (+1 step) and with the instance's own attributes; non-trivial = Announces were emitted while a port was slave; distinct = change-script fingerprint plus transition sequence".into();
         }
         "C15" => {
             e.rule = "each run = a boundary clock (one slave port, 1-3 master ports sharing the daemon's real TlvForwarder) whose scripted parent, another acceptable master and an unacceptable sender attach generated TLV suffixes to their Announces (propagating / non-propagating / reserved types, even lengths 0..1100 incl. sizes equal to, just below and just above the room left, path traces of 0..200 entries incl. looping ones, bursts beyond the forwarder capacity); each emitted Announce is compared with a per-port model queue; non-trivial = Announces checked and at least one TLV forwarded or looping Announce sent; distinct = TLV script fingerprint".into();
@@ -184,7 +205,7 @@ pub fn extras(property: &str) -> EvidenceExtras {
             e.components_stub = vec!["underlying clock -> SimClock (the daemon uses LinuxClock)".into()];
         }
         "C12" => {
-            e.rule = "each run = a generated history with a faithful host (timers armed and fired exactly as requested; lost/late TX timestamps, masters appearing/disappearing, second peer-delay responders) followed by (a) total silence or (b) a steadily announcing better master; non-trivial = phase 2 evaluated; distinct = (variant, start states, transition sequence) fingerprint".into();
+            e.rule = "each run = a generated history with a faithful host (timers armed and fired exactly as requested; lost/late TX timestamps, masters appearing/disappearing, second peer-delay responders) followed by (a) total silence or (b) a steadily announcing better master; plus the timer-cover monitor (no port state without the timer that would end it) on generated networks and on the boundary-clock TLV-forwarding scenario of C15; non-trivial = phase 2 evaluated; distinct = (variant, start states, transition sequence) fingerprint".into();
         }
         "C13" => {
             e.rule = "adversarial measurement histories (offsets 0..+-1e9 s, equal/backward/future event times, identical entries, alternating sync/delay/peer-delay kinds, interleaved update()) on KalmanFilter and BasicFilter with random positive configurations and a clock failing commands intermittently, plus the command monitor on closed-loop, random-history and network scenarios; non-trivial = at least one clock command issued; distinct = distinct command-sequence / transition fingerprint".into();
